@@ -76,6 +76,22 @@ def rawToJson (d : List ((Key × Key) × List Rat)) : Json :=
 def wf (r : Result) : Bool :=
   decide (SortedIds r.ints) && decide (UniqueIds r) && decide (RefsPresent r) && decide (IdxWF r.ints)
 
+def parsePyVal (j : Json) : Except String PyVal := do
+  match j with
+  | .arr #[.str "none"] => pure PyVal.none
+  | .arr #[.str "num", q] => pure (PyVal.num (← ratOfJson q))
+  | .arr #[.str "str", cs] => pure (PyVal.str (← (← arr cs).mapM nat))
+  | .arr #[.str "fset", cs] => pure (PyVal.fset (← (← arr cs).mapM nat))
+  | _ => throw "bad PyVal"
+
+/-- `labs`: array of `[x1, x2, pyval]` -/
+def parseLabs (j : Json) : Except String (List ((Key × Key) × PyVal)) := do
+  (← arr j).mapM (fun (t : Json) => do
+    match t with
+    | .arr #[a, b, v] => pure (((← intList a, ← intList b), ← parsePyVal v) : (Key × Key) × PyVal)
+    | _ => throw "bad label")
+
+
 /-- requests (field `kind`):
  `ma`    {vs, span, w}                     → model / spec of `moving_average`
  `fin`   {res, n, lp}                      → `where_fin`: model with and without the proposed fix, spec, hypotheses
@@ -155,8 +171,14 @@ def handle1 (req : Json) : Except String Json := do
       ofList (fun (e : (Key × Key) × List (Rat × Rat)) =>
         Json.arr #[ofList ofInt e.1.1, ofList ofInt e.1.2,
           ofList (fun (q : Rat × Rat) => Json.arr #[ratToJson q.1, ratToJson q.2]) e.2]) d
-    pure (obj [("model", exc out (rawContrast r sel1 sel2 pc x span strX)),
-               ("spec", exc out (rawContrastS r sel1 sel2 pc x span strX))])
+    let labs ← opt parseLabs (fieldD req "labs" Json.null)
+    match labs with
+    | some lb =>
+      pure (obj [("modelpy", exc out (rawContrastPy r sel1 sel2 pc x span lb)),
+                 ("specpy", exc out (rawContrastPyS r sel1 sel2 pc x span lb))])
+    | none =>
+      pure (obj [("model", exc out (rawContrast r sel1 sel2 pc x span strX)),
+                 ("spec", exc out (rawContrastS r sel1 sel2 pc x span strX))])
   | "plotc" =>
     let r ← parseResult (← field req "res")
     let parseSel := fun (j : Json) => do
@@ -187,16 +209,19 @@ def handle1 (req : Json) : Except String Json := do
     let out := fun (d : List (List CPoint)) =>
       ofList (fun (l : List CPoint) => ofList (fun (p : CPoint) =>
         Json.arr #[ofList ofInt p.x.1, ofList ofInt p.x.2, ratToJson p.y, ratToJson p.lo, ratToJson p.hi]) l) d
-    pure (obj [("model", exc out (plotContrast r sel1 sel2 pc x span strX xord mode ci errevery kind)),
-               ("spec", exc out (plotContrastS r sel1 sel2 pc x span strX xord mode ci errevery kind))])
+    let labs ← opt parseLabs (fieldD req "labs" Json.null)
+    match labs with
+    | some lb =>
+      pure (obj [("model", exc out (plotContrastPy r sel1 sel2 pc x span lb mode ci errevery kind)),
+                 ("spec", exc out (plotContrastPyS r sel1 sel2 pc x span lb mode ci errevery kind))])
+    | none =>
+      pure (obj [("model", exc out (plotContrast r sel1 sel2 pc x span strX xord mode ci errevery kind)),
+                 ("spec", exc out (plotContrastS r sel1 sel2 pc x span strX xord mode ci errevery kind))])
+  | "errevery" =>
+    let ns ← (← arr (← field req "ns")).mapM nat
+    pure (obj [("model", ofList ofNat (ns.map errEveryDefault)), ("bound", ofNat int005Bound)])
   | "pysort" =>
-    let vals ← (← arr (← field req "vals")).mapM (fun (j : Json) => do
-      match j with
-      | .arr #[.str "none"] => pure PyVal.none
-      | .arr #[.str "num", q] => pure (PyVal.num (← ratOfJson q))
-      | .arr #[.str "str", cs] => pure (PyVal.str (← (← arr cs).mapM nat))
-      | .arr #[.str "fset", cs] => pure (PyVal.fset (← (← arr cs).mapM nat))
-      | _ => throw "bad PyVal")
+    let vals ← (← arr (← field req "vals")).mapM parsePyVal
     let out := fun (l : List PyVal) => ofList (fun (v : PyVal) =>
       match v with
       | .none => Json.arr #[Json.str "none"]
